@@ -101,4 +101,86 @@ expression at the top level, no union member switch -/
 def refClass (t : Ty) (inc : Bool) (i : Ini) : Bool :=
   tyWfFor t inc && topOK t i && noSwitch t inc i
 
+
+/-! ## the class of the end-to-end theorem `static_image_correct`
+
+Besides `refClass`: the layout handed to `parseinit` is a C layout (`layOK`: members inside their
+struct/union, struct members in increasing bit order without overlap, bit-fields inside a storage
+unit of their type's size, basic types with their LP64 sizes), string literals have the element
+width of their character type (`strsOK`), every stored value is a constant of the member's kind
+(`constVals`: no non-constant expression, no address in a narrower or bit-field member — the
+inputs on which `emitdata` reports "initializer is not a constant expression"), and designators
+are not used together with unions (`noUnion t || noDesig i`; with both, laminarity of the list
+depends on which union members are designated: differential only). -/
+
+/-- size of the basic integer type of class `cls` (LP64) -/
+def csize (cls : Nat) : Nat :=
+  if cls = 1 ∨ cls = 2 ∨ cls = 3 ∨ cls = 12 then 1
+  else if cls = 4 ∨ cls = 5 then 2
+  else if cls = 6 ∨ cls = 7 then 4
+  else 8
+
+/-- bit positions of a member: a bit-field is a non-empty part of its storage unit -/
+def bitsOK (ty : Ty) (b a : Nat) : Bool :=
+  match ty with
+  | .scalar s (.int _ _) => decide (b + a < 8 * s)
+  | _ => b == 0 && a == 0
+
+mutual
+  def layOK : Ty → Bool
+    | .scalar s (.int cls _) => s == csize cls
+    | .scalar s .flt => s == 4 || s == 8
+    | .scalar s .ptr => s == 8
+    | .array _ e => layOK e
+    | .agg iu _ size ms => msLay iu size 0 ms
+  /-- `lb`: first bit not used by the members in front (structs) -/
+  def msLay (iu : Bool) (size lb : Nat) : Members → Bool
+    | .nil => true
+    | .cons _ ty off b a next =>
+      decide (off + ty.size ≤ size) && layOK ty && bitsOK ty b a && (iu || decide (lb ≤ 8 * off + b)) &&
+        msLay iu size (8 * (off + ty.size) - a) next
+end
+
+mutual
+  def noUnion : Ty → Bool
+    | .scalar _ _ => true
+    | .array _ e => noUnion e
+    | .agg iu _ _ ms => !iu && noUnionMs ms
+  def noUnionMs : Members → Bool
+    | .nil => true
+    | .cons _ ty _ _ _ next => noUnion ty && noUnionMs next
+end
+
+def strOK : Expr → Bool
+  | .str w scls _ => w == csize scls && (w == 1 || w == 2 || w == 4)
+  | _ => true
+
+mutual
+  /-- every string literal has the element width of its character type -/
+  def strsOK : Ini → Bool
+    | .expr e => strOK e
+    | .list its => strsOKs its
+  def strsOKs : Items → Bool
+    | .nil => true
+    | .cons _ i rest => strsOK i && strsOKs rest
+end
+
+def evValOK : Ev → Bool
+  | .add i =>
+    match i.val with
+    | .other => false
+    | .addr _ _ => i.before == 0 && i.after == 0 && i.stop == i.start + 8
+    | _ => true
+  | .clear _ _ => true
+
+/-- every stored value is a constant of the member's kind -/
+def constVals (t : Ty) (inc : Bool) (i : Ini) : Bool :=
+  match parseinit t inc i with
+  | .ok st => st.log.all evValOK
+  | .error _ => true
+
+/-- the class of `static_image_correct` -/
+def imgClass (t : Ty) (inc : Bool) (i : Ini) : Bool :=
+  refClass t inc i && !inc && layOK t && (noUnion t || noDesig i) && strsOK i && constVals t inc i
+
 end CprocVerif.InitSim
